@@ -46,9 +46,36 @@ pub fn run_all(args: &Args) {
     let mut expected = 0usize;
     let rule_mode = crng.below(3); // 0 recommended, 1 --rule X, 2 --config
     let rule_name = ["no-debugger", "eqeqeq", "no-explicit-any"][crng.below(3)];
+    // --config: tags, an include list and an exclude list in a drawn order; the reference selection is computed here by
+    // set algebra (tagged or included, and not excluded), not by the function under test
+    let pool = ["eqeqeq", "no-var", "no-explicit-any", "no-eval", "no-console", "prefer-const", "no-debugger", "no-empty", "camelcase", "ban-untagged-todo"];
+    let mut cfg_include: Vec<String> = vec![];
+    let mut cfg_exclude: Vec<String> = vec![];
+    let cfg_tags: Vec<String> = if crng.chance(2, 3) { vec!["recommended".to_string()] } else { vec![] };
+    if rule_mode == 2 {
+      for _ in 0..crng.range(2, 5) {
+        let c = pool[crng.below(pool.len())].to_string();
+        if !cfg_include.contains(&c) {
+          cfg_include.push(c);
+        }
+      }
+      for _ in 0..crng.below(3) {
+        let c = pool[crng.below(pool.len())].to_string();
+        if !cfg_exclude.contains(&c) {
+          cfg_exclude.push(c);
+        }
+      }
+    }
     let rules: Vec<Box<dyn LintRule>> = match rule_mode {
       1 => filtered_rules(get_all_rules(), Some(vec![]), None, Some(vec![rule_name.to_string()])),
-      2 => filtered_rules(get_all_rules(), Some(vec!["recommended".to_string()]), Some(vec!["no-debugger".to_string()]), Some(vec!["eqeqeq".to_string()])),
+      2 => {
+        let selected: Vec<String> = get_all_rules()
+          .iter()
+          .filter(|r| (r.tags().iter().any(|t| cfg_tags.iter().any(|x| x == t.display())) || cfg_include.contains(&r.code().to_string())) && !cfg_exclude.contains(&r.code().to_string()))
+          .map(|r| r.code().to_string())
+          .collect();
+        rules_by_codes(&selected)
+      }
       _ => recommended_rules(get_all_rules()),
     };
     let linter = mk_linter(rules, &Words::default());
@@ -141,7 +168,7 @@ pub fn run_all(args: &Args) {
       extra.push("--rule".into());
       extra.push(rule_name.into());
     } else if rule_mode == 2 {
-      std::fs::write(format!("{}/cfg.json", dir), "{\"rules\": {\"tags\": [\"recommended\"], \"exclude\": [\"no-debugger\"], \"include\": [\"eqeqeq\"]}}").unwrap();
+      std::fs::write(format!("{}/cfg.json", dir), serde_json::to_string(&json!({"rules": {"tags": cfg_tags, "exclude": cfg_exclude, "include": cfg_include}})).unwrap()).unwrap();
       extra.push("--config".into());
       extra.push("cfg.json".into());
     }
